@@ -128,7 +128,7 @@ class _ExpectingThenSkip(testtools.TestCase):
         self.skipTest("a later skip must not hide the failed expectation")
 
 
-EXPECT_SITES = ("setUp.pre", "setUp", "tearDown.pre", "tearDown", "cleanup")
+EXPECT_SITES = ("setUp.pre", "setUp", "tearDown.pre", "tearDown", "cleanup", "setUp+skip", "setUp.pre+skip", "cleanup-after-setUp-skip")
 
 
 class _ExpectingAt(testtools.TestCase):
@@ -146,9 +146,15 @@ class _ExpectingAt(testtools.TestCase):
 
     def setUp(self):
         self._expect("setUp.pre")
+        self._expect("setUp.pre+skip")
         super().setUp()
         self.addCleanup(self._expect, "cleanup")
+        self.addCleanup(self._expect, "cleanup-after-setUp-skip")
         self._expect("setUp")
+        self._expect("setUp+skip")
+        if self._site.endswith("skip"):
+            # the expectation failed (or not); setUp then decides that the test cannot run here
+            self.skipTest("setUp skips after the expectation")
 
     def test_x(self):
         self._log.append("test")
@@ -178,9 +184,10 @@ def check_expect_sites(e, v, res):
             continue
         res.evaluations += 1
         outs = [x[0] for x in result.log if x[0] in rec.OUTCOMES]
-        if sorted(log) != sorted(["after-expectThat@" + site, "test", "tearDown"]):
+        skipping = site.endswith("skip")
+        if sorted(log) != sorted(["after-expectThat@" + site] + ([] if skipping else ["test", "tearDown"])):
             problems.append(("expectThat", "expectThat(%r, %s) in %s: rest of the test did not run: %r (outcomes %r)" % (v, e.name, site, log, outs)))
-        want = ["addFailure"] if mismatching else ["addSuccess"]
+        want = ["addFailure"] if mismatching else (["addSkip"] if skipping else ["addSuccess"])
         if outs != want:
             problems.append(("expectThat-site", "expectThat(%r, %s) in %s with mismatch=%r gave outcomes %r" % (v, e.name, site, mismatching, outs)))
     return problems
